@@ -6,6 +6,9 @@ import Lz4V.Model.DecodeGo
 import Lz4V.Model.DecodeAsm
 import Lz4V.Model.Fast
 import Lz4V.Model.HC
+import Lz4V.Model.FrameW
+import Lz4V.Model.FrameR
+import Lz4V.Session
 /-!
 # lz4v-driver — runs the Lean models and specifications on a case stream
 
@@ -105,7 +108,11 @@ def step (line : String) : String :=
 partial def loopIO (hin : IO.FS.Stream) (hout : IO.FS.Stream) : IO Unit := do
   let line ← hin.getLine
   if line.isEmpty then return ()
-  hout.putStrLn (step line)
+  let f := line.trimAscii.toString.splitOn " "
+  match f with
+  | "W" :: rest => hout.putStrLn (← Session.writerSession rest)
+  | "R" :: rest => hout.putStrLn (← Session.readerSession rest)
+  | _ => hout.putStrLn (step line)
   loopIO hin hout
 
 def main : IO Unit := do
